@@ -496,22 +496,27 @@ func (e *lpmEntry) upsert(primaryKey index.Key, obj object) bool {
 		e.head.obj = obj
 		return false
 	case -1:
-		oldHead := e.head
+		// The tail is shared with the entries in earlier snapshots,
+		// so build a new one instead of modifying it.
+		newTail := make([]lpmEntryObject, 0, len(e.tail)+1)
+		newTail = append(newTail, e.head)
+		newTail = append(newTail, e.tail...)
 		e.head = lpmEntryObject{primary: primaryKey, obj: obj}
-		e.tail = append(e.tail, lpmEntryObject{})
-		copy(e.tail[1:], e.tail[:len(e.tail)-1])
-		e.tail[0] = oldHead
+		e.tail = newTail
 		return true
 	}
 	idx, found := e.searchTail(primaryKey)
 	if found {
-		e.tail[idx].obj = obj
+		newTail := slices.Clone(e.tail)
+		newTail[idx].obj = obj
+		e.tail = newTail
 		return false
 	}
-	entry := lpmEntryObject{primary: primaryKey, obj: obj}
-	e.tail = append(e.tail, lpmEntryObject{})
-	copy(e.tail[idx+1:], e.tail[idx:])
-	e.tail[idx] = entry
+	newTail := make([]lpmEntryObject, 0, len(e.tail)+1)
+	newTail = append(newTail, e.tail[:idx]...)
+	newTail = append(newTail, lpmEntryObject{primary: primaryKey, obj: obj})
+	newTail = append(newTail, e.tail[idx:]...)
+	e.tail = newTail
 	return true
 }
 
